@@ -580,4 +580,145 @@ def emitted (size : Nat) (args : List (List α)) : List (List α) :=
   let r := emittedAppends size [] args
   if r.2.isEmpty then r.1 else r.1 ++ [r.2]
 
+/-! ## One-shot `write(data)`  (extension: entry point `TabularDataWriter.write`) -/
+
+/-- `TabularDataWriter.write` as inherited by `CSVFileWriter`: `check_valid_data`
+(column names equal the writer's, in order), then `initialize(); append_data(data);
+finalize()`.  src: mokapot/tabular_data.py:369-375,389-393 -/
+def baseWrite (w : Writer σ β) (cols : List Name) (s : σ) (f : WFrame β) : Option σ :=
+  if f.names = cols then runWriter w s [f] else none
+
+/-- `CSVFileWriter.write` -/
+def csvWrite1 (cols : List Name) (disk : Option (CsvFile β)) (f : WFrame β) : Option (Option (CsvFile β)) :=
+  baseWrite (csvWriter cols) cols disk f
+
+/-- `ParquetFileWriter.write`: `data.to_parquet(file_name, index=False)` — a new,
+complete (closed) file with the *frame's own* columns, all rows in one row group;
+neither the writer's `columns` nor its schema are consulted and there is no
+`check_valid_data`.  src: mokapot/tabular_data.py:675-676 -/
+def pqWrite1 (_cols : List Name) (_disk : Option (PqDisk β)) (f : WFrame β) : Option (Option (PqDisk β)) :=
+  some (some ⟨⟨f.names, [f.rows.map rowVals]⟩, false⟩)
+
+/-- `BufferedWriter.write`: `self.writer.write(data)` — the buffer is by-passed
+and left as it is.  src: mokapot/tabular_data.py:553-554 -/
+def bufWrite1 (inner : σ → WFrame β → Option σ) (st : Option (WFrame β) × σ) (f : WFrame β) :
+    Option (Option (WFrame β) × σ) :=
+  (inner st.2 f).map (fun s' => (st.1, s'))
+
+/-- `TabularDataWriter.from_suffix(…, buffer_size, buffer_type).write(data)` on a
+fresh writer object; returns the storage of the file writer.
+src: mokapot/tabular_data.py:412-436,553-554 -/
+def writeFromSuffix (inner : σ → WFrame β → Option σ) (size : Nat) (s0 : σ) (f : WFrame β) : Option σ :=
+  if 1 < size then (bufWrite1 inner (none, s0) f).map (fun p => p.2) else inner s0 f
+
+/-! ## The writer as the caller sees it: `initialize` / `append_data` / `finalize`
+one call at a time, context managers, `auto_finalize`  (extension) -/
+
+/-- a writer object in use: `__enter__` (= `initialize`), `append_data`,
+`__exit__` (= `finalize`) over its state `τ`.
+src: mokapot/tabular_data.py:395-406 -/
+structure Sess (τ β : Type) where
+  enter : τ → Option τ
+  app : τ → Arg β → Option τ
+  exit : τ → Option τ
+
+/-- `initialize()` of what `from_suffix` returned: `BufferedWriter.initialize` is
+`self.writer.initialize()`, the buffer is not touched.
+src: mokapot/tabular_data.py:395-396,556-557 -/
+def fsInit (w : Writer σ β) (st : Option (WFrame β) × σ) : Option (Option (WFrame β) × σ) :=
+  (w.init st.2).map (fun s => (st.1, s))
+
+/-- `append_data(arg)` on an unbuffered writer: frames only (typeguard) -/
+def plainAppend (w : Writer σ β) (st : Option (WFrame β) × σ) (a : Arg β) : Option (Option (WFrame β) × σ) :=
+  (argFrame a).bind (fun f => (w.append st.2 f).map (fun s => (st.1, s)))
+
+/-- `append_data(arg)` of what `from_suffix` returned.
+src: mokapot/tabular_data.py:434-436,521-548,617-619,669-673 -/
+def fsAppend (w : Writer σ β) (k : Kind) (size : Nat) (st : Option (WFrame β) × σ) (a : Arg β) :
+    Option (Option (WFrame β) × σ) :=
+  if 1 < size then bufAppend w k size st a else plainAppend w st a
+
+/-- `finalize()` of what `from_suffix` returned.
+src: mokapot/tabular_data.py:398-399,559-561 -/
+def fsFinalize (w : Writer σ β) (k : Kind) (size : Nat) (st : Option (WFrame β) × σ) :
+    Option (Option (WFrame β) × σ) :=
+  if 1 < size then bufFinalize w k size st else (w.fin st.2).map (fun s => (st.1, s))
+
+/-- the writer object returned by `from_suffix` -/
+def fromSuffixSess (w : Writer σ β) (k : Kind) (size : Nat) : Sess (Option (WFrame β) × σ) β :=
+  ⟨fsInit w, fsAppend w k size, fsFinalize w k size⟩
+
+/-- `with writer: writer.append_data(a₁); …` — one writer used alone -/
+def runSess (w : Sess σ β) (s0 : σ) (args : List (Arg β)) : Option σ :=
+  (w.enter s0).bind (fun s => (foldOpt w.app s args).bind w.exit)
+
+/-- `for writer in writers: writer.__enter__()` resp. `__exit__` — every writer
+with its current state; an exception ends the run -/
+def enterAll (ws : List (Sess σ β × σ)) : Option (List (Sess σ β × σ)) :=
+  optAll (ws.map (fun p => (p.1.enter p.2).map (fun t => (p.1, t))))
+
+def exitAll (ws : List (Sess σ β × σ)) : Option (List (Sess σ β × σ)) :=
+  optAll (ws.map (fun p => (p.1.exit p.2).map (fun t => (p.1, t))))
+
+/-- `writers[i].append_data(arg)` inside the `with` block -/
+def stepAt (ws : List (Sess σ β × σ)) (ia : Nat × Arg β) : Option (List (Sess σ β × σ)) :=
+  ws[ia.1]?.bind (fun p => (p.1.app p.2 ia.2).map (fun t => ws.set ia.1 (p.1, t)))
+
+/-- `with auto_finalize(writers): <appends to the writers in any interleaving>`;
+an exception anywhere is `none` (the `finally` clause still finalises, the state
+of the files after an exception is not modelled).
+src: mokapot/tabular_data.py:439-452 -/
+def runAuto (ws : List (Sess σ β × σ)) (prog : List (Nat × Arg β)) : Option (List σ) :=
+  (enterAll ws).bind (fun st => (foldOpt stepAt st prog).bind (fun st' =>
+    (exitAll st').map (fun out => out.map (fun p => p.2))))
+
+/-- the appends of a program that go to writer number `j`, in order -/
+def argsFor (j : Nat) (prog : List (Nat × Arg β)) : List (Arg β) :=
+  (prog.filter (fun ia => ia.1 == j)).map (fun ia => ia.2)
+
+/-! ## Delimited text with a separator option  (extension: `sep=` of
+`from_path` / `from_suffix`, handed on by `get_associated_reader`) -/
+
+/-- a delimited text file together with the separator its lines were written with -/
+structure SepFile (β : Type) where
+  sep : String
+  file : CsvFile β
+  deriving DecidableEq, Repr
+
+/-- `CSVFileReader(file_name, sep)`: parsing a file with another separator than
+the one it was written with is *not modelled* (`none`).
+src: mokapot/tabular_data.py:189-191 -/
+def csvReaderSep (sep : String) (d : SepFile β) : Option (Reader β) :=
+  if sep = d.sep then some (csvReader d.file) else none
+
+/-- `CSVFileWriter(file_name, columns, sep=sep)`: header and lines are written
+with `sep`; appending to a file that was started with another separator is not
+modelled.  src: mokapot/tabular_data.py:583-619 -/
+def csvWriterSep (cols : List Name) (sep : String) : Writer (Option (SepFile β)) β where
+  init := fun _ => some (some ⟨sep, ⟨cols, []⟩⟩)
+  append := fun disk f =>
+    if f.names = cols then
+      disk.elim none (fun d =>
+        if d.sep = sep then some (some ⟨sep, ⟨d.file.header, d.file.lines ++ f.rows.map rowVals⟩⟩) else none)
+    else none
+  fin := fun s => some s
+
+/-- `get_associated_reader()`: `CSVFileReader(self.file_name, sep=self.stdargs["sep"])`.
+src: mokapot/tabular_data.py:621-622 -/
+def csvAssocReader (sep : String) (disk : Option (SepFile β)) : Option (Reader β) :=
+  disk.bind (csvReaderSep sep)
+
+/-! ## Frame readers from a series / an array  (extension) -/
+
+/-- `DataFrameReader.from_series(series, name)`: one column, the series' own
+index labels; `name=None` keeps the series' name.
+src: mokapot/tabular_data.py:273-278 -/
+def seriesReader (sname : Name) (name : Option Name) (vals : List (Nat × β)) : Reader β :=
+  frameReader ⟨[name.getD sname], vals.map (fun iv => (iv.1, [(name.getD sname, iv.2)]))⟩
+
+/-- `DataFrameReader.from_array(array, name)`: one column, labels `0, 1, …`.
+src: mokapot/tabular_data.py:280-282 -/
+def arrayReader (name : Name) (vals : List β) : Reader β :=
+  frameReader ⟨[name], indexFrom 0 (vals.map (fun v => [(name, v)]))⟩
+
 end Mk.Tabular
